@@ -1,4 +1,6 @@
 import RactorModel.Lemmas.Rpc
+import RactorModel.Lemmas.RpcGroups
+import RactorModel.Lemmas.CallResult
 
 /-!
 # C09 — every RPC completes and replies are never cross-wired
@@ -266,11 +268,62 @@ theorem port_queued_once (ops : List Op) (a : Nat) (x : Actor) (p : Nat)
     (hx : (run ops).actors[a]? = some x) : x.mailbox.count (Item.call p) ≤ 1 :=
   (inv_run ops).nd a x p hx
 
-/-- `multi_call` sends one fresh port per actor in request order: the calls it creates, in
-port order, target a prefix of the requested actors — all of them unless a send failed (then
-the group is abandoned and the caller gets `Err` at once). Results are read back by port
-index, i.e. in request order. -/
-theorem multi_call_request_order (s : S) (g : Nat) (t : Option Nat) (as : List Nat) :
+/-- (`multi_call`, request order — every reachable state) `mreqs[g]` is the list of actors the
+`g`-th `multi_call` was asked to call. The calls it created (`groupMembers`, in port order = the
+order of the result vector, `groupResults`) target a PREFIX of that request, in request order; and
+unless one of its sends failed (`groupFailed`: the caller got `Err` at once, there is no result
+vector) they target the WHOLE request: one fresh port per requested actor, `results[i]` is the
+result of the call to the `i`-th requested actor. -/
+theorem multi_call_request_order (ops : List Op) (g : Nat) (reqs : List Nat)
+    (hr : (run ops).mreqs[g]? = some reqs) :
+    (groupMembers (run ops) g).map (·.callee) = reqs.take (groupMembers (run ops) g).length ∧
+    (groupFailed (run ops) g = false → (groupMembers (run ops) g).map (·.callee) = reqs) := by
+  obtain ⟨h1, h2⟩ := (ginv_run ops).mem g reqs hr
+  have hlen : (memberCallees (run ops).calls g).length = (groupMembers (run ops) g).length := by
+    simp [memberCallees, groupMembers]
+  rw [hlen] at h1 h2
+  refine ⟨h1, fun hnf => ?_⟩
+  rcases h2 with h2 | h2
+  · have : memberCallees (run ops).calls g = reqs := by
+      rw [h1, h2]; exact List.take_of_length_le (Nat.le_refl _)
+    exact this
+  · have : groupFailed (run ops) g = true := h2
+    rw [this] at hnf; cases hnf
+
+/-- (`multi_call`, results are indexed by request) The `i`-th entry of the result vector is the
+result of a call whose callee is the `i`-th requested actor — and, by `success_is_own_reply`, a
+`Success v` in it is the value sent on that very call's own port. -/
+theorem multi_call_result_index (ops : List Op) (g : Nat) (reqs : List Nat) (i : Nat) (c : Call)
+    (hr : (run ops).mreqs[g]? = some reqs) (hc : (groupMembers (run ops) g)[i]? = some c) :
+    reqs[i]? = some c.callee ∧ (groupResults (run ops) g)[i]? = some c.res := by
+  have h1 := (multi_call_request_order ops g reqs hr).1
+  have hi : i < (groupMembers (run ops) g).length := (List.getElem?_eq_some_iff.mp hc).1
+  refine ⟨?_, by simp [groupResults, List.getElem?_map, hc]⟩
+  have h2 : ((groupMembers (run ops) g).map (·.callee))[i]? = some c.callee := by
+    simp [List.getElem?_map, hc]
+  rw [h1, List.getElem?_take] at h2
+  simpa [hi] using h2
+
+/-- (`multi_call`, answer by T) once the deadline of every member has passed the whole group is
+done: `multi_call` has returned its vector (every member resolved individually —
+`answered_by_deadline` — so the `JoinSet` is exhausted). -/
+theorem multi_call_answered_by_deadline (ops : List Op) (g : Nat)
+    (hd : ∀ c ∈ groupMembers (run ops) g, ∃ d, c.deadline = some d ∧ d ≤ (run ops).now) :
+    groupDone (run ops) g = true := by
+  unfold groupDone
+  rw [List.all_eq_true]
+  intro c hc
+  obtain ⟨d, hd1, hd2⟩ := hd c hc
+  have hmem : c ∈ (run ops).calls := (List.mem_filter.mp hc).1
+  obtain ⟨p, hp⟩ := List.mem_iff_getElem?.mp hmem
+  have := answered_by_deadline ops p c d hp hd1 hd2
+  cases hres : c.res with
+  | none => exact absurd hres this
+  | some r => rfl
+
+/-- (one `multi_call` step, any state) the calls it creates, in port order, target a prefix of the
+requested actors. -/
+theorem multi_call_step_request_order (s : S) (g : Nat) (t : Option Nat) (as : List Nat) :
     ∃ k, (sendMulti s g t as).calls.map (·.callee) = s.calls.map (·.callee) ++ as.take k :=
   sendMulti_callees s g t as
 
@@ -320,6 +373,81 @@ example : ((run (exampleSup ++ [.suphandle 0 true, .stop 3 .drop, .supexit 0])).
     [some .senderError, some .senderError, some .senderError, some .senderError, some .senderError] := by decide +kernel
 example : ok (run (exampleSup ++ [.suphandle 0 true, .later 0 (.reply 5), .supdrop 0 0])) = true := by decide +kernel
 
+/-! ## BEGIN CallResult block (agent `ports`): `ractor/src/rpc/call_result.rs` and
+`impl From<CallResult<_>> for RactorErr<_>` — model `Model/CallResult.lean`, lemmas
+`Lemmas/CallResult.lean`, tie: E-PURE `harness/hcore/src/bin/rpc_pure.rs` + `Driver/C09Pure.lean`.
+What a caller can do with the `CallResult` the theorems above hand it. -/
+section CallResultBlock
+open CallRes
+variable {α β γ ε : Type}
+
+/-- exactly one of `is_success` / `is_timeout` / `is_send_error` holds -/
+theorem callResult_flags_exactly_one (r : CR α) :
+    (isSuccess r = true ∧ isTimeout r = false ∧ isSendError r = false) ∨
+    (isSuccess r = false ∧ isTimeout r = true ∧ isSendError r = false) ∨
+    (isSuccess r = false ∧ isTimeout r = false ∧ isSendError r = true) := flags_exactly_one r
+
+/-- `unwrap` returns exactly the reply of a `Success` and panics on (and only on) the two
+failure variants; `expect` likewise, its panic text starting with the caller's message -/
+theorem callResult_unwrap (r : CR α) (msg : String) :
+    (∀ v, CallRes.unwrap r = .ok v ↔ r = .success v) ∧
+    ((∃ m, CallRes.unwrap r = .error m) ↔ isSuccess r = false) ∧
+    (∀ v, CallRes.expect r msg = .ok v ↔ r = .success v) ∧
+    ((∃ m, CallRes.expect r msg = .error m) ↔ isSuccess r = false) ∧
+    (∀ m, CallRes.expect r msg = .error m → ∃ tail, m = msg ++ tail) :=
+  ⟨unwrap_ok_iff r, unwrap_panics_iff r, expect_ok_iff r msg, expect_panics_iff r msg,
+   fun m h => expect_message r msg m h⟩
+
+/-- the defaulting forms never panic: the reply on `Success`, the default otherwise; the
+closure-taking ones are LAZY — the closure runs exactly once iff the result is not a
+`Success`, never otherwise -/
+theorem callResult_defaults_total_and_lazy (r : CR α) (d : α) (f : Unit → α) (e : ε) (g : Unit → ε) :
+    unwrapOr r d = (match r with | .success v => v | _ => d) ∧
+    unwrapOrElse r f = (unwrapOr r (f ()), if isSuccess r then 0 else 1) ∧
+    successOr r e = (match r with | .success v => .ok v | _ => .error e) ∧
+    successOrElse r g = (successOr r (g ()), if isSuccess r then 0 else 1) :=
+  ⟨unwrapOr_eq r d, unwrapOrElse_eq r f, successOr_eq r e, successOrElse_eq r g⟩
+
+/-- `map` is a functor on the reply that keeps the variant, and calls the mapping exactly once
+iff `Success` -/
+theorem callResult_map_functor (r : CR α) (f : α → β) (g : β → γ) :
+    CallRes.map r id = r ∧ CallRes.map (CallRes.map r f) g = CallRes.map r (g ∘ f) ∧
+    isSuccess (CallRes.map r f) = isSuccess r ∧ isTimeout (CallRes.map r f) = isTimeout r ∧
+    isSendError (CallRes.map r f) = isSendError r ∧
+    (∀ w, CallRes.map r f = .success w ↔ ∃ v, r = .success v ∧ f v = w) ∧
+    mapCalls r = (if isSuccess r then 1 else 0) :=
+  ⟨map_id r, map_comp r f g, (map_flags r f).1, (map_flags r f).2.1, (map_flags r f).2.2,
+   map_success_iff r f, mapCalls_eq r⟩
+
+/-- `map_or` / `map_or_else` factor through `map` and `unwrap_or`; exactly one of the two
+closures of `map_or_else` runs, exactly once -/
+theorem callResult_mapOr_via_map (r : CR α) (d : β) (dl : Unit → β) (f : α → β) :
+    mapOr r d f = unwrapOr (CallRes.map r f) d ∧
+    mapOrElse r dl f = (unwrapOr (CallRes.map r f) (dl ()), (if isSuccess r then 0 else 1), mapCalls r) :=
+  ⟨mapOr_eq r d f, mapOrElse_eq r dl f⟩
+
+/-- the conversion the `call!` / `call_t!` / `forward!` macros apply to a non-success result:
+`Timeout ↦ RactorErr::Timeout`, `SenderError ↦ Messaging(ChannelClosed)`; it panics iff handed
+a `Success` -/
+theorem callResult_error_conversion (r : CR α) :
+    ((∃ m, toErr r = .error m) ↔ isSuccess r = true) ∧
+    (toErr r = .ok .timeout ↔ isTimeout r = true) ∧
+    (toErr r = .ok .channelClosed ↔ isSendError r = true) :=
+  ⟨toErr_panics_iff r, (toErr_ok r).1, (toErr_ok r).2⟩
+
+/-- the run-time oracle `CallRes.check` (what `Driver/C09Pure.lean` evaluates on the real
+combinators' outputs) accepts everything the model computes -/
+theorem callResult_oracle_accepts_model (r : CR Nat) (d : Nat) (f : Nat → Nat) (e : Nat) (msg : String) :
+    check r d f e (observe r d f e msg) = [] := check_observe r d f e msg
+
+-- non-vacuity: the oracle is not trivially empty — it rejects an eager `unwrap_or_else`
+example : check (.success 5) 3 (· + 1) 4
+    { observe (.success 5) 3 (· + 1) 4 "boom" with unwrapOrElse := (5, 1) } = ["c09.callresult-unwrap-or"] := by
+  decide
+
+end CallResultBlock
+/-! ## END CallResult block -/
+
 end C09
 
 #print axioms C09.ok_reachable
@@ -343,4 +471,14 @@ end C09
 #print axioms C09.dead_actor_owns_no_port
 #print axioms C09.port_queued_once
 #print axioms C09.multi_call_request_order
+#print axioms C09.multi_call_result_index
+#print axioms C09.multi_call_answered_by_deadline
+#print axioms C09.multi_call_step_request_order
 #print axioms C09.forward_only_on_transition
+#print axioms C09.callResult_flags_exactly_one
+#print axioms C09.callResult_unwrap
+#print axioms C09.callResult_defaults_total_and_lazy
+#print axioms C09.callResult_map_functor
+#print axioms C09.callResult_mapOr_via_map
+#print axioms C09.callResult_error_conversion
+#print axioms C09.callResult_oracle_accepts_model
